@@ -4,6 +4,7 @@
   `Mellon.Cov` at α = ℝ, for every expression tree, every point and every active-dims form.
 -/
 import MellonProofs.KernelLemmas
+import MellonProofs.PSDJoint
 
 namespace Mellon.C05
 open Mellon
@@ -292,7 +293,42 @@ theorem psd_select {k : List ℝ → List ℝ → ℝ} (h : PSDKernel k) (ad : A
     PSDKernel (fun x y => k (select ad x) (select ad y)) :=
   fun n xs a => h n (fun i => select ad (xs i)) a
 
+/-! ### positive semi-definiteness of whole expressions (`MellonProofs/PSDLemmas`, `PSDTree`, `PSDJoint`) -/
+
+/-- **Schur product theorem**: the product node of two PSD kernels is PSD. -/
+theorem psd_mul {d : Nat} {k1 k2 : List ℝ → List ℝ → ℝ} (h1 : PSD.PSDOn d k1) (h2 : PSD.PSDOn d k2) :
+    PSD.PSDOn d (fun x y => k1 x y * k2 x y) := PSD.psdOn_mul h1 h2
+
+/-- Natural powers of a PSD kernel are PSD. -/
+theorem psd_pow_nat {d : Nat} {k : List ℝ → List ℝ → ℝ} (h : PSD.PSDOn d k) (m : Nat) :
+    PSD.PSDOn d (fun x y => k x y ^ m) := PSD.psdOn_pow h m
+
+/-- **ExpQuad is PSD** — as computed, with the `1e-12` regulariser inside the distance and any `active_dims`:
+    `exp(−(‖x−y‖²+ε)/2ℓ²) = g(x) g(y) exp(⟨x,y⟩/ℓ²)`, and `exp` of a PSD kernel is PSD (power series + Schur
+    product). -/
+theorem psd_expquad {ls : ℝ} (hls : 0 < ls) (ad : ActiveDims) (d : Nat) : PSD.PSDOn d (Cov.expquad ls ad).k :=
+  PSD.psdOn_expquad_leaf hls ad d
+
+/-- **Every Gram matrix `cov_func(X, X)` of a kernel expression is positive semi-definite**, for expressions
+    built from ExpQuad / Linear leaves (`ls > 0`), sums, products, non-negative scalar operands and natural
+    exponents, with any `active_dims` at any node; `hyp` admits further leaves whose PSD-ness is assumed (the
+    Matérn, Exponential and RatQuad kernels: Bochner's theorem is not available). -/
+theorem gram_psd_of_tree {hyp : Cov ℝ → Prop} (hleaf : ∀ c, hyp c → ∀ d, PSD.PSDOn d c.k) {c : Cov ℝ}
+    (h : PSD.PSDTree hyp c) {n d : Nat} (X : Mat ℝ n d) : (toM (gram c X X)).PosSemidef :=
+  PSD.gram_psd (PSD.psdTree_psdOn hleaf h d) X
+
+/-- … with no hypothesis for ExpQuad / Linear expressions. -/
+theorem gram_psd_closed_tree {c : Cov ℝ} (h : PSD.PSDTree (fun _ => False) c) {n d : Nat} (X : Mat ℝ n d) :
+    (toM (gram c X X)).PosSemidef :=
+  PSD.gram_psd (PSD.psdTree_psdOn_closed h d) X
+
 /-! ### non-vacuity -/
+
+example : PSD.PSDTree (fun _ => False)
+    (.mul (.pow (.expquad (2:ℝ) (.idx (-1))) ((2 : Nat) : ℝ) .none)
+      (.addC (.add (.expquad 1 .none) (.linear 3 (.list [0, 0])) .none) 0.5 .none) .none) :=
+  .mul (.pow 2 (.expquad (by norm_num))) (.addC (.add (.expquad (by norm_num)) (.linear (by norm_num))) (by norm_num))
+
 
 example : Stationary (.matern52 (2:ℝ) .none) := .matern52 (by norm_num)
 example : ([1, 2] : List ℝ).length = ([3, 4] : List ℝ).length := rfl
